@@ -147,13 +147,8 @@ def specs(r, calls=(1, 2, 3)):  # noqa: F811
     if out.get("deadlock") or out.get("error"):
         qs.append(("spec eq 0 1", {"what": "concurrent readers: deadlock or a thread died", "detail": out.get("deadlock") or out.get("error")}))
         return qs
-    # "each execution moves the due time to the next such instant": with overlapping callers too, the number of completed
-    # reschedulings of an (unlimited) job equals the number of its executions - a run that was skipped must not move the timer
-    if out.get("due_timeline") is not None and not any(x["op"] == "exec" and x["args"].get("force") for x in out["records"]):
-        for k, v in (out.get("jobs") or {}).items():
-            if v[3] == 0:
-                qs.append((f"spec eq {(out.get('reschedulings') or {}).get(k, 0)} {v[0]}",
-                           {"what": "concurrent callers: every execution moves the due time exactly once (reschedulings = executions)", "key": k}))
+    # "each execution moves the due time to the next such instant", with overlapping callers too: after n executions the job is
+    # planned for the (n+1)-th occurrence after its reference
     from . import c14 as _c14m
     qs += _c14m.final_due_specs(r["scn"], out)
     stable = {int(k): set(v) for k, v in (out.get("stable_dues") or {}).items()}
